@@ -261,6 +261,25 @@ def sheet_pipe_case(ctx, grids, which: str):
         compare(ctx, f"Backends.getHeaders/getRows/cellText vs {which}_to_dict (one sheet)", {"grid": [[repr(v) for _t, v in r] for r in grid]}, py, lean)
 
 
+def workbook_pipe_case(ctx, grids, which: str, data: bytes):
+    """A whole decoded workbook: `xls_to_dict` / `xlsx_to_dict` against `Backends.excelToDict`
+    (the decoder's output = the typed grids the file was written from)."""
+    from pyxform import xls2json_backends as b
+
+    fn = b.xls_to_dict if which == "xls" else b.xlsx_to_dict
+    py = py_outcome(fn, data)
+    sheets = [{"name": g["name"],
+               "grid": [[cell_json(v if which == "xlsx" else C.xls_cell(t, v)[1] if t != "bool" else bool(v)) for t, v in row] for row in g["grid"]]}
+              for g in grids]
+    lean = ctx.driver.call("be.excel_to_dict", sheets=sheets)
+    if lean["outcome"] == "unsupported":
+        ctx.count(f"pipe:{which}_workbook:unsupported")
+        return
+    ctx.count(f"pipe:{which}_workbook:{py['outcome']}")
+    compare(ctx, f"Backends.excelToDict vs {which}_to_dict (whole workbook)",
+            {"sheets": [[g["name"], [[repr(v) for _t, v in r] for r in g["grid"]]] for g in grids]}, py, lean)
+
+
 def get_xlsform_case(ctx, kind: str, text: str, channel: str, file_type, stem: str, scratch):
     """Text containers through a channel: DefinitionData vs `be.get_xlsform`."""
     import dataclasses
